@@ -297,15 +297,19 @@ PROPS["C11"] = {
 PROPS["C15"] = {
     "level": "other", "functions": ["rand::seq::SliceRandom::shuffle", "rand::seq::gen_index", "rand::Rng::gen_range", "UniformInt::<u32>::sample_single_inclusive", "u32::leading_zeros", "Env::<L>::step"],
     "assumptions": DE_ASSUME + ["the generator's words are uniform and independent (the quality of Xoroshiro128** is not this repository's code)"],
-    "bounds": "bijection lemma n <= 4; index-draw lemma ranges 1..64 with at most one rejection; zone lemma all r < 2^32; step loop batches 2..3 (4 thorough)",
-    "outside": "the statistical statement itself; bijection for n > 4 (n! tuples); the counting step 'an interval of length r*2^k contains exactly 2^k multiples of r' and the product over draws are stated arithmetic, not solver results",
-    "explanation": "Exact sufficient conditions instead of a statistical test: L1/L5 (step loop harnesses) the processing order of a step is the permutation the generator words induce on [0..n), for arbitrary instruction contents, and the step draws exactly n-1 words; L2 the compiled index draw returns hi(word*r) for the first word with lo(word*r) <= Z(r) and consumes exactly the words up to it; L3 Z(r)+1 = r*2^clz(r) exactly for every r (hence every index value owns exactly 2^clz(r) accepted words: each draw exactly uniform); L4 for n <= 4 the map index-tuple -> permutation of the compiled shuffle is injective and all n! permutations are reachable (covers), so uniform tuples give uniform permutations; same words => same permutation.",
+    "bounds": "bijection lemma n <= 8 (12 thorough; all n! permutations shown reachable one by one for n <= 4, by counting above); index-draw lemma ranges 1..64 with at most one rejection; zone lemma all r < 2^32; step loop batches 2..3 (4 thorough)",
+    "outside": "the statistical statement itself; bijection for n > 12; the counting step 'an interval of length r*2^k contains exactly 2^k multiples of r' and the product over draws are stated arithmetic, not solver results",
+    "explanation": "Exact sufficient conditions instead of a statistical test: L1/L5 (step loop harnesses) the processing order of a step is the permutation the generator words induce on [0..n), for arbitrary instruction contents, and the step draws exactly n-1 words; L2 the compiled index draw returns hi(word*r) for the first word with lo(word*r) <= Z(r) and consumes exactly the words up to it; L3 Z(r)+1 = r*2^clz(r) exactly for every r (hence every index value owns exactly 2^clz(r) accepted words: each draw exactly uniform); L4 for n <= 8 (12) the map index-tuple -> permutation of the compiled shuffle is injective (and for n <= 4 all n! permutations are shown reachable; above, onto follows by counting n! tuples), so uniform tuples give uniform permutations; same words => same permutation.",
     "level_text": None,
     "stubs": [STUB_LOOP],
     "harnesses": [de("c15_index_draw_lemma", "L2: gen_range(0..r), r in 1..=64, all words with <= 1 rejection", covers=["cover.first_word_rejected", "cover.last_index_of_six"], timeout=300),
                   de("c15_zone_lemma", "L3: zone + 1 == r << clz(r) without loss, all r", covers=["cover.small_range"], timeout=300),
                   de("c15_bijection_3", "L4: n = 3, injective + all 6 permutations reachable", timeout=300),
                   de("c15_bijection_4", "L4: n = 4, injective + all 24 permutations reachable", timeout=300),
+                  de("c15_bijection_5", "L4: n = 5, injective on the 120 index tuples (onto by counting)", covers=["cover.reversed", "cover.identity"], timeout=300),
+                  de("c15_bijection_6", "L4: n = 6, injective on the 720 index tuples", covers=["cover.reversed", "cover.identity"], timeout=300),
+                  de("c15_bijection_8", "L4: n = 8, injective on the 8! index tuples", covers=["cover.ends_swapped"], timeout=600),
+                  de("c15_bijection_12", "L4: n = 12, injective on the 12! index tuples", covers=["cover.ends_swapped"], timeout=1500, tiers=("thorough",)),
                   STEP_HARNESSES[0], STEP_HARNESSES[1], STEP_HARNESSES[2], MLOOP],
 }
 
